@@ -100,6 +100,28 @@ func runValOps(payload []*Sx) *Sx {
 			consistent = false
 		}
 	}
+	// the JSON forms of equal values decode to equal values, of unequal values to unequal values (generic decoder)
+	{
+		dec := make([]types.Value, len(probes))
+		for i, p := range probes {
+			if b, err := json.Marshal(p); err == nil {
+				var d types.Value
+				if types.UnmarshalJSON(b, &d) == nil {
+					dec[i] = d
+					if !d.Equal(p) || !p.Equal(d) {
+						consistent = false
+					}
+				}
+			}
+		}
+		for i := range probes {
+			for j := range probes {
+				if dec[i] != nil && dec[j] != nil && dec[i].Equal(dec[j]) != probes[i].Equal(probes[j]) {
+					consistent = false
+				}
+			}
+		}
+	}
 	// the JSON form of a value decodes to an equal value WHATEVER the destination held before (a reused loop variable, a slice element):
 	// records and sets decoded into typed destinations that already hold another record / set, the empty ones included
 	for _, p := range probes {
